@@ -131,6 +131,9 @@ type MatcherSpec struct {
 	ErrMissing  *bool           `json:"err_on_missing,omitempty"`
 	Return      json.RawMessage `json:"return,omitempty"`     // custom: value returned
 	ReturnErr   string          `json:"return_err,omitempty"` // custom: error returned
+	// InPlace (custom): the callback scrubs the map / slice it receives IN PLACE and returns that very object
+	// (m["scrubbed_by_callback"] = true; return m, nil); for other values it returns Return
+	InPlace bool `json:"callback_mutates_argument_in_place,omitempty"`
 	// Stmt: options are applied as plain statements on the matcher held in a variable (m := match.Any(..);
 	// m.ErrOnMissingPath(false)) instead of chained calls whose return value is passed on
 	Stmt bool `json:"options_as_statements,omitempty"`
@@ -205,9 +208,31 @@ func (rt *matcherRT) build(m MatcherSpec) bothMatcher {
 	case "custom":
 		path := m.Paths[0]
 		c := match.Custom(path, func(val any) (any, error) {
-			rt.observed = append(rt.observed, customObs{Path: path, Value: val})
+			seen := val
+			if m.InPlace {
+				// what the callback SAW: a copy taken before it scrubs its argument
+				if b, err := json.Marshal(val); err == nil {
+					var cp any
+					if json.Unmarshal(b, &cp) == nil {
+						seen = cp
+					}
+				}
+			}
+			rt.observed = append(rt.observed, customObs{Path: path, Value: seen})
 			if m.ReturnErr != "" {
 				return nil, errors.New(m.ReturnErr)
+			}
+			if m.InPlace {
+				switch v := val.(type) {
+				case map[string]any:
+					v["scrubbed_by_callback"] = true
+					return v, nil
+				case []any:
+					if len(v) > 0 {
+						v[0] = "scrubbed_by_callback"
+						return v, nil
+					}
+				}
 			}
 			return decodeAny(m.Return), nil
 		})
